@@ -7,6 +7,8 @@ package checks
 
 import (
 	"fmt"
+	"os"
+	"strings"
 	"testing"
 
 	"pgregory.net/rapid"
@@ -19,6 +21,14 @@ type C04Case struct {
 	Victim string `json:"victim"` // txn auto vacuum open
 	Stmts  []Stmt `json:"stmts,omitempty"`
 	Cut    int64  `json:"cut,omitempty"`
+	// Late: a statement another writer (opened before the victim) commits after the victim's
+	// handle was opened and before the victim acts: the victim's commit then dies next to an
+	// unmerged version of another writer
+	Late *Stmt `json:"late,omitempty"`
+	// Warm: a statement the victim's handle commits BEFORE the late writer's statement (crash
+	// points are enumerated from after it): the late writer's version is then a sibling of the
+	// victim's lineage, and the victim's dying commit leaves parent, child and that sibling listed
+	Warm *Stmt `json:"warm,omitempty"`
 }
 
 func genC04Case(t *rapid.T) C04Case {
@@ -42,20 +52,113 @@ func genC04Case(t *rapid.T) C04Case {
 	if c.Victim == "vacuum" {
 		c.Cut = rapid.SampledFrom([]int64{-1, -1, 41 * 256, 3000}).Draw(t, "cut")
 	}
+	if c.Victim != "open" && rapid.IntRange(0, 1).Draw(t, "withLate") == 0 {
+		lcfg := cfg
+		lcfg.multiRow = false
+		l := genStmt(t, lcfg, "late")
+		l.T = int64(50 * 256)
+		c.Late = &l
+		if rapid.Bool().Draw(t, "withWarm") {
+			w := genStmt(t, lcfg, "warm")
+			w.T = int64(45 * 256)
+			c.Warm = &w
+		}
+	}
 	return c
 }
 
 // runVictim opens a read-write table on st as client "victim" and performs the
 // victim action. It returns whether the action was acknowledged.
 func runVictim(c C04Case, st *fakes3.Store, spec TableSpec, view MSet) (acked bool, after MSet, err error) {
+	acked, after, _, err = runVictimLate(c, st, spec, view, func() {})
+	return
+}
+
+// runVictimLate also returns the operations committed before the victim acts — the victim's
+// own warm-up statement and the late writer's statement (nil when the victim died before
+// that point). arm is called when the enumeration of crash points starts.
+func runVictimLate(c C04Case, st *fakes3.Store, spec TableSpec, view MSet, arm func()) (acked bool, after MSet, lateOps []MOp, err error) {
 	b, _ := newBucket(st)
 	defer fakes3.Unregister(b)
+	var lconn *Conn
+	lname := uniqName("late")
+	if c.Late != nil && c.Late.wellFormed() {
+		lconn = newConn()
+		defer lconn.Close()
+		ls := spec
+		ls.Bucket, ls.Name, ls.Client = b, lname, "late"
+		if err := lconn.Create(ls); err != nil {
+			return false, view, nil, fmt.Errorf("late writer: open: %v", err)
+		}
+	}
+	var lateOnly []MOp
+	acked, after, err = runVictimAfterOpen(c, st, b, spec, view, arm, func(warmOps []MOp) error {
+		if lconn == nil {
+			return nil
+		}
+		lateOps = append([]MOp{}, warmOps...)
+		outcome, added, _ := view.Exec(*c.Late, wideCols)
+		if err := lconn.SetWriteTime(baseTime + c.Late.T); err != nil {
+			return err
+		}
+		q, args := c.Late.SQL(lname, "k")
+		if cls := errClass(lconn.Exec(q, args...)); cls != outcome {
+			return fmt.Errorf("HARNESS-MISMATCH late writer %s: outcome %s, model expects %s", *c.Late, cls, outcome)
+		}
+		lateOps = append(lateOps, added...)
+		lateOnly = added
+		return nil
+	})
+	if after != nil {
+		after = after.Clone() // (error paths hand back the caller's own set)
+		if os.Getenv("VERIF_TRACE") != "" {
+			fmt.Fprintf(os.Stderr, "  runVictimLate: acked=%v lateOps=%d after-before-union=%s view=%s\n", acked, len(lateOps), strings.ReplaceAll(after.Rows(wideCols).String(), "\n", ";"), strings.ReplaceAll(view.Rows(wideCols).String(), "\n", ";"))
+		}
+		if len(lateOnly) > 0 {
+			// (a late statement that matched no row commits no version)
+			// the late writer's version holds everything its (stale) handle saw plus its own
+			// statement; readers merge it with the victim's version. After a vacuum by the victim
+			// this can bring back a row the victim deleted before the cutoff: the documented
+			// limit of vacuum next to unmerged versions, predicted by the model, not an alarm.
+			after.Union(view)
+		}
+		for _, op := range lateOnly {
+			after.Add(op)
+		}
+	}
+	return
+}
+
+func runVictimAfterOpen(c C04Case, st *fakes3.Store, b string, spec TableSpec, view MSet, arm func(), afterOpen func(warmOps []MOp) error) (acked bool, after MSet, err error) {
 	conn := newConn()
 	defer conn.Close()
 	sp := spec
 	sp.Bucket, sp.Name, sp.Client = b, uniqName("vic"), "victim"
+	warm := c.Warm != nil && c.Warm.wellFormed() && c.Late != nil && c.Victim != "open"
+	if !warm {
+		arm() // the victim's open (and the merge it may commit) is part of the enumeration
+	}
 	after = view.Clone()
 	if err := conn.Create(sp); err != nil {
+		return false, after, err
+	}
+	var warmOps []MOp
+	if warm {
+		outcome, added, _ := after.Exec(*c.Warm, wideCols)
+		if err := conn.SetWriteTime(baseTime + c.Warm.T); err != nil {
+			return false, view, err
+		}
+		q, args := c.Warm.SQL(sp.Name, "k")
+		if cls := errClass(conn.Exec(q, args...)); cls != outcome {
+			return false, view, fmt.Errorf("HARNESS-MISMATCH warm-up %s: outcome %s, model expects %s", *c.Warm, cls, outcome)
+		}
+		for _, op := range added {
+			after.Add(op)
+		}
+		warmOps = added
+		arm()
+	}
+	if err := afterOpen(warmOps); err != nil {
 		return false, after, err
 	}
 	switch c.Victim {
@@ -142,7 +245,8 @@ func runC04(c C04Case, o *Obs) error {
 
 	// reference run
 	ref := r.store.Clone()
-	acked, afterSet, err := runVictim(c, ref, r.spec, beforeSet)
+	armIdx := 0
+	acked, afterSet, _, err := runVictimLate(c, ref, r.spec, beforeSet, func() { armIdx = ref.LogLen() })
 	if err != nil {
 		return fmt.Errorf("reference run of the victim (%s) fails without any fault: %v", c.Victim, err)
 	}
@@ -151,7 +255,7 @@ func runC04(c C04Case, o *Obs) error {
 	}
 	after := afterSet.Rows(wideCols)
 	m := 0
-	for _, q := range ref.Log() {
+	for _, q := range ref.LogSince(armIdx) {
 		if q.Client == "verif://victim" && q.Mutating() {
 			m++
 		}
@@ -178,9 +282,9 @@ func runC04(c C04Case, o *Obs) error {
 	for k := 0; k <= m; k++ {
 		st := r.store.Clone()
 		count := 0
-		dead := false
+		dead, armed := false, false
 		st.Intercept = func(q *fakes3.Req) error {
-			if q.Client != "verif://victim" {
+			if q.Client != "verif://victim" || !armed {
 				return nil
 			}
 			if dead {
@@ -195,8 +299,22 @@ func runC04(c C04Case, o *Obs) error {
 			}
 			return nil
 		}
-		ackedK, _, _ := runVictim(c, st, r.spec, beforeSet)
+		ackedK, _, lateK, _ := runVictimLate(c, st, r.spec, beforeSet, func() { armed = true })
 		st.Intercept = nil
+		before := before
+		if os.Getenv("VERIF_TRACE") != "" {
+			fmt.Fprintf(os.Stderr, "  k=%d ackedK=%v lateK=%v\n", k, ackedK, lateK)
+		}
+		if lateK != nil {
+			bk := beforeSet.Clone()
+			for _, op := range lateK {
+				bk.Add(op)
+			}
+			before = bk.Rows(wideCols)
+			if len(lateK) > 0 {
+				o.Class("crash-next-to-unmerged-later-version")
+			}
+		}
 		o.Class("crash-point")
 		if k > 0 && k < m && height >= 1 {
 			o.NonTrivial = true
@@ -206,6 +324,20 @@ func runC04(c C04Case, o *Obs) error {
 		rows1, err := recover1(snap.Clone(), true, k, "read-only")
 		if err != nil {
 			return err
+		}
+		// with three or more versions listed (the dead commit's parent, its child and another
+		// writer's version) the read-only recovery is repeated in every merge order
+		if nv := len(currentVersions(snap, r.prefix)); nv >= 3 {
+			for _, code := range [][]int{{0, 0}, {0, 1}, {1, 0}, {1, 1}, {2, 0}, {2, 1}} {
+				rowsP, err := r.observe(snap.Clone(), true, code, "rec")
+				if err != nil {
+					return fmt.Errorf("victim %s, crash after mutation %d of %d: read-only recovery open in merge order %v fails: %v", c.Victim, k, m, code, err)
+				}
+				if !rowsP.Equal(rows1) {
+					return fmt.Errorf("victim %s, crash after mutation %d of %d: read-only recovery opens in different merge orders disagree (order code %v).\nfirst:\n%sthis one:\n%s", c.Victim, k, m, code, rows1, rowsP)
+				}
+			}
+			o.Class("recovery-in-all-merge-orders")
 		}
 		rw := snap.Clone()
 		rows2, err := recover1(rw, false, k, "read-write")
@@ -252,7 +384,7 @@ func runC04(c C04Case, o *Obs) error {
 func init() { register("TestC04_Crash", runC04) }
 
 func TestC04_Crash(t *testing.T) {
-	st := newStats(t, "C04", "TestC04_Crash", "a committed multi-writer prefix history (1-3 writers, entries_per_node 2-4096, 2-18 steps) followed by a victim: read-write open (merge commit when >=2 versions are unmerged) then nothing / one autocommit statement / a transaction of 1-4 statements / s3db_vacuum (cutoffs incl. year 2100); a fault-free reference run on a copy gives before, after and M = mutating requests; for EVERY k in 0..M the victim is re-run on a fresh copy with every request after its k-th mutation failing, then a read-only, a read-write and a third recovery open must succeed, agree, show exactly before or after (after if acknowledged; before=after for vacuum) and every version object must still resolve all its node links; non-trivial = 0<k<M on a tree of height>=1")
+	st := newStats(t, "C04", "TestC04_Crash", "a committed multi-writer prefix history (1-3 writers, entries_per_node 2-4096, 2-18 steps) followed by a victim: read-write open (merge commit when >=2 versions are unmerged) then nothing / one autocommit statement / a transaction of 1-4 statements / s3db_vacuum (cutoffs incl. year 2100); a fault-free reference run on a copy gives before, after and M = mutating requests; in half of the cases another writer commits one statement after the victim's handle was opened, so the victim's commit dies next to an unmerged version; for EVERY k in 0..M the victim is re-run on a fresh copy with every request after its k-th mutation failing, then a read-only, a read-write and a third recovery open must succeed, agree, show exactly before or after (after if acknowledged; before=after for vacuum) and every version object must still resolve all its node links; non-trivial = 0<k<M on a tree of height>=1")
 	st.Assume = append(st.Assume, "the order in which mast's flush goroutines issue node PUTs is not pinned: which nodes exist at crash point k can differ between runs; the verdict must hold for each")
 	checkRapid(t, st, genC04Case, runC04)
 }
